@@ -27,7 +27,9 @@ Same == UNCHANGED vars
 
 (* ---- the caller ---- *)
 TSchedCall == /\ Is("sched_call") /\ ~open /\ CallSchedWith(Ev.p, Ev.ph, Ev.block, Ev.panic) /\ nadded' = Ev.id /\ open' = TRUE
-TRemoveCall == /\ Is("remove_call") /\ ~open /\ CallRemove(Ev.id) /\ open' = TRUE
+TRemoveCall == /\ Is("remove_call")
+               /\ \/ ~open /\ CallRemove(Ev.id) /\ open' = TRUE
+                  \/ RCall(Ev.id) /\ UNCHANGED open          \* the Remove issued together with a Stop: the second caller
 TEntriesCall == /\ Is("entries_call") /\ ~open /\ CallEntries /\ open' = TRUE
 TStopCall == /\ Is("stop_call") /\ ~open /\ CallStop /\ nstops' = Ev.k /\ open' = TRUE
 TStart == /\ Is("start") /\ ~open /\ CallStart /\ UNCHANGED open
@@ -39,9 +41,14 @@ TRunRet == /\ Is("runret") /\ UNCHANGED open
 (* because the Cron was not running, the second half of the step already taken                                     *)
 RetOp == CASE Ev.ev = "sched_ret" -> "sched" [] Ev.ev = "remove_ret" -> "remove"
            [] Ev.ev = "entries_ret" -> "entries" [] Ev.ev = "stop_ret" -> "stop"
+(* the second caller's Remove returns: after the rendezvous, or directly when it found the Cron stopped *)
+TRemRet == /\ Is("remove_ret") /\ rm.id = Ev.id /\ UNCHANGED open
+           /\ \/ RRet
+              \/ rm.pc = "called" /\ RLock /\ rm'.pc = "idle"
 TRet == /\ HasNext /\ Ev.ev \in {"sched_ret", "remove_ret", "entries_ret", "stop_ret"} /\ Eat
         /\ open /\ cop.op = RetOp /\ open' = FALSE
-        /\ \/ cpc = "got" /\ Ret /\ (Ev.ev = "entries_ret" => reply = Ev.list)
+        /\ \/ cpc \in {"got", "done"} /\ Ret /\ (Ev.ev = "entries_ret" => reply = Ev.list)
+           \/ cpc = "wantmu" /\ Ev.ev = "stop_ret" /\ StopLock /\ cpc' = "idle"     \* Stop found the Cron not running
            \/ cpc = "idle" /\ Same /\ (Ev.ev = "entries_ret" => Snapshot = Ev.list)
 TAdv == /\ Is("adv") /\ Ev.now >= now
         /\ (Ev.now > now => ~Pending)
@@ -61,9 +68,11 @@ TRun == /\ Is("run") /\ LWake /\ wi' = wi + 1 /\ list[wi] = Ev.id /\ lnow = Ev.n
 (* the select arm is a silent step (it must precede the return), the log line reports what that arm did.          *)
 TLogAdded == /\ Is("log.added") /\ lpc = "sort" /\ cop.op = "sched" /\ cop.id = Ev.entry /\ cpc \in {"got", "idle"}
              /\ lnow = Ev.now /\ nx[Ev.entry] = Ev.next /\ Ev.entry \in Range(list) /\ Same /\ UNCHANGED open
-TLogRemoved == /\ Is("log.removed") /\ lpc = "sort" /\ cop.op = "remove" /\ cop.id = Ev.entry /\ cpc \in {"got", "idle"}
+TLogRemoved == /\ Is("log.removed") /\ lpc = "sort"
+               /\ \/ cop.op = "remove" /\ cop.id = Ev.entry /\ cpc \in {"got", "idle"}
+                  \/ rm.id = Ev.entry /\ rm.pc \in {"got", "done", "idle"}
                /\ Ev.entry \notin Range(list) /\ Same /\ UNCHANGED open
-TLogStop == /\ Is("log.stop") /\ lpc = "off" /\ cop.op = "stop" /\ cpc \in {"got", "idle"} /\ Same /\ UNCHANGED open
+TLogStop == /\ Is("log.stop") /\ lpc = "off" /\ cop.op = "stop" /\ cpc \in {"got", "done", "idle"} /\ Same /\ UNCHANGED open
 
 (* ---- jobs, Stop's context ---- *)
 (* the job goroutine is spawned before the scheduler writes its "run" line (one model step): the new goroutine can *)
@@ -84,9 +93,13 @@ Silent == /\ HasNext /\ UNCHANGED <<tr, l, open>>
           /\ \/ (LWake /\ lpc' = "sort")        \* the wake-up loop ran out of due entries
              \/ SelSnapshot                     \* the snapshot arm (the reply is checked at entries_ret)
              \/ SelAdd \/ SelRemove \/ SelStop  \* the other caller arms (reported by their log lines, see above)
+             \/ SelRemoveR                      \* ... and the remove arm served to the second caller
+             \/ RetRelease \/ RRelease          \* a call returned (its return is recorded later)
+             \/ (RLock /\ rm'.pc = "sending")   \* the second caller got runningMu and found the Cron running
+             \/ (StopLock /\ cpc' = "sending")  \* Stop got runningMu and found the Cron running
              \/ Unblock                         \* the driver let a blocked job go
 
-TNext == TSchedCall \/ TRemoveCall \/ TEntriesCall \/ TStopCall \/ TStart \/ TRunCall \/ TRunRet \/ TRet \/ TAdv
+TNext == TSchedCall \/ TRemoveCall \/ TEntriesCall \/ TStopCall \/ TStart \/ TRunCall \/ TRunRet \/ TRet \/ TRemRet \/ TAdv
          \/ TLogStart \/ TLogSchedule \/ TArmed \/ TWoke \/ TLogWake \/ TRun \/ TLogAdded \/ TLogRemoved \/ TLogStop
          \/ TJobGate \/ TJobStart \/ TJobEnd \/ TJobSkip \/ TCtxDone \/ TQuiescent \/ TIgnore \/ Silent
 TSpec == TInit /\ [][TNext]_tvars
